@@ -324,8 +324,14 @@ cdef class StratifiedSFCNNPS(NNPS):
 
     @cython.cdivision(True)
     cdef inline int _get_level(self, double h) noexcept nogil:
+        # At least one halving level below the top is never skipped: a
+        # particle whose cut-off is not above cell_size/2**(m-1) goes to the
+        # level with exactly that cell size.  (Adding an absolute EPS to
+        # cell_size instead put particles with a cut-off up to
+        # EPS/cell_size (relative) ABOVE a level's cell size into that level,
+        # so that neighbours two cells away were missed when h is small.)
         return self.num_levels - <int> min(self.num_levels,
-                ceil(log2((self.cell_size + EPS)/ self.radius_scale / h)))
+                fmax(1.0, ceil(log2(self.cell_size / self.radius_scale / h))))
 
     @cython.cdivision(True)
     cdef inline int _get_H(self, double h_q, double h_j):
